@@ -165,10 +165,12 @@ PARS = {
     },
     "broad_peak": {
         "def": {},
+        "tiny": {"scale": 3e-310, "background": 0.0},
         "p2": {"peak_pos": 0.05, "width_exp": 3.0, "porod_scale": 2e-5},
     },
     "_spherepy": {
         "def": {},
+        "tiny": {"scale": 3e-312, "background": 0.0, "radius": 20.0},
         "pd": {"radius_pd": 0.1, "radius_pd_n": 7, "radius": 35.0},
         "big": {"radius": 90.0},
     },
@@ -188,6 +190,9 @@ PARS = {
     },
     "pyscalar": {
         "def": {},
+        # results in the subnormal range (legal, if unusual): the process's floating-point
+        # environment must be what a fresh process has
+        "tiny": {"scale": 3e-310, "background": 0.0},
         "other": {"rg": 20.0, "amp": 1.5, "background": 0.0},
         "pd": {"rg_pd": 0.2, "rg_pd_n": 6},
     },
@@ -283,9 +288,14 @@ for _m, _p in (("sphere", "radius"), ("cylinder", "radius"), ("cylinder", "lengt
                ("pyplug", "radius"), ("pyplug", "thick"), ("allpd", "r")):
     SV_SET[_m] = SV_SET[_m] + [(_p + ".width", 0.15), (_p + ".npts", 7), (_p + ".width", 0.3),
                                (_p + ".nsigmas", 2.0)]
+# ... and the distribution *type* switched the same way (what is left of the previous
+# disperser's settings - a uniform one has no nsigmas - then takes the new type's defaults)
+for _m, _p in (("sphere", "radius"), ("cylinder", "length"), ("pyplug", "radius")):
+    SV_SET[_m] = SV_SET[_m] + [(_p + ".type", "gaussian"), (_p + ".type", "rectangle")]
 SV_DISP = {
-    "sphere": [("radius", "gaussian", 7, 0.1), ("radius", "schulz", 120, 0.2)],
-    "cylinder": [("radius", "gaussian", 5, 0.1), ("length", "lognormal", 9, 0.2), ("theta", "gaussian", 4, 8.0)],
+    "sphere": [("radius", "gaussian", 7, 0.1), ("radius", "schulz", 120, 0.2), ("radius", "uniform", 5, 0.2)],
+    "cylinder": [("radius", "gaussian", 5, 0.1), ("length", "lognormal", 9, 0.2), ("theta", "gaussian", 4, 8.0),
+                 ("length", "uniform", 6, 0.3)],
     "core_multi_shell": [("radius", "gaussian", 5, 0.1), ("thickness1", "gaussian", 4, 0.2)],
     "sphere@hardsphere": [("radius", "gaussian", 6, 0.15)],
     "pyplug": [("radius", "gaussian", 5, 0.1), ("thick", "gaussian", 4, 0.2)],
@@ -1282,6 +1292,31 @@ def sweep_configs(tier):
                     {"op": "sv_set", "s": "s5", "name": wname + ".npts", "value": 5}]
         ops += [dict(ev, s="s5"), {"op": "sv_set", "s": "s3", "name": "radius", "value": 42.0}, dict(ev, s="s3")]
         out.append({"kind": "history", "ops": ops, "recheck_seed": 5, "family": "product_from_two_instances"})
+    # pure-Python models asked for results in the subnormal range after compiled libraries
+    # were loaded into the process (loading a library must not change the floating-point environment)
+    ops = []
+    for n_, (model, key) in enumerate((("pyscalar", "tiny"), ("sphere", "def"), ("pyscalar", "tiny"),
+                                       ("cylinder", "def"), ("broad_peak", "tiny"), ("sphere@hardsphere", "def"),
+                                       ("_spherepy", "tiny"), ("pyscalar", "tiny"))):
+        ops += [{"op": "load", "id": "m%d" % n_, "model": model, "dtype": "double"},
+                {"op": "make_kernel", "id": "k%d" % n_, "m": "m%d" % n_, "q": "q3", "model": model},
+                {"op": "call", "k": "k%d" % n_, "model": model, "fn": "Iq", "pars": key, "cutoff": 0.0, "mono": False}]
+    out.append({"kind": "history", "ops": ops, "recheck_seed": 9, "family": "python_model_after_compiled"})
+    # the distribution type switched through setParam after a disperser of another type was
+    # installed, in a process that has already used the new type with other settings
+    for model, par in (("sphere", "radius"), ("cylinder", "length"), ("pyplug", "radius")):
+        ev = {"op": "sv_eval", "q": "q3", "fn": "evalDistribution"}
+
+        def sset(s_, name, value):
+            return {"op": "sv_set", "s": s_, "name": par + "." + name, "value": value}
+        ops = [{"op": "sv_new", "id": "s1", "model": model}, sset("s1", "width", 0.15), sset("s1", "npts", 7),
+               sset("s1", "nsigmas", 1.5), dict(ev, s="s1"),
+               {"op": "sv_new", "id": "s2", "model": model},
+               {"op": "sv_disp", "s": "s2", "par": par, "type": "uniform", "npts": 5, "width": 0.2}, dict(ev, s="s2"),
+               sset("s2", "type", "gaussian"), dict(ev, s="s2"), sset("s2", "type", "schulz"), dict(ev, s="s2"),
+               {"op": "sv_new", "id": "s3", "model": model}, sset("s3", "width", 0.2), sset("s3", "npts", 6),
+               dict(ev, s="s3"), dict(ev, s="s1")]
+        out.append({"kind": "history", "ops": ops, "recheck_seed": 8, "family": "disperser_type_switch"})
     # sibling instances: clone, change one of the two, evaluate the other (every
     # configuration operation of the pool, both directions)
     for model in ("sphere", "cylinder", "pyplug", "allpd", "sphere@hayter_msa", "core_multi_shell"):
